@@ -268,7 +268,8 @@ impl SubscriptionActor {
     /// Marks the subscription as deleted. Further requests will be no-ops.
     async fn delete(&mut self) -> Result<(), DeleteError> {
         if self.deleted {
-            return Ok(());
+            // Another request already deleted the subscription; there is nothing left to delete.
+            return Err(DeleteError::Closed);
         }
 
         self.deleted = true;
